@@ -372,6 +372,19 @@ impl SerialiseInto for &str {
     }
 }
 
+/* The wire fields are narrower than a Duration: saturate rather than silently wrap. */
+fn saturating_secs_u16(d: &Duration) -> u16 {
+    u16::try_from(d.as_secs()).unwrap_or(u16::MAX)
+}
+
+fn saturating_secs_u32(d: &Duration) -> u32 {
+    u32::try_from(d.as_secs()).unwrap_or(u32::MAX)
+}
+
+fn saturating_millis_u32(d: &Duration) -> u32 {
+    u32::try_from(d.as_millis()).unwrap_or(u32::MAX)
+}
+
 fn serialise_router_advertisement(a: &RtrAdvertisement) -> Vec<u8> {
     let mut v: Serialise = Default::default();
     v.serialise(ND_ROUTER_ADVERT.0);
@@ -382,9 +395,9 @@ fn serialise_router_advertisement(a: &RtrAdvertisement) -> Vec<u8> {
         if a.flag_managed { 0x80_u8 } else { 0x00_u8 }
             | if a.flag_other { 0x40_u8 } else { 0x00_u8 },
     );
-    v.serialise(a.lifetime.as_secs() as u16);
-    v.serialise(a.reachable.as_millis() as u32);
-    v.serialise(a.retrans.as_millis() as u32);
+    v.serialise(saturating_secs_u16(&a.lifetime));
+    v.serialise(saturating_millis_u32(&a.reachable));
+    v.serialise(saturating_millis_u32(&a.retrans));
     for opt in &a.options.0 {
         match opt {
             NDOptionValue::SourceLLAddr(src) => {
@@ -407,8 +420,8 @@ fn serialise_router_advertisement(a: &RtrAdvertisement) -> Vec<u8> {
                     if prefix.onlink { 0x80_u8 } else { 0x00_u8 }
                         | if prefix.autonomous { 0x40_u8 } else { 0x00_u8 },
                 );
-                v.serialise(prefix.valid.as_secs() as u32);
-                v.serialise(prefix.preferred.as_secs() as u32);
+                v.serialise(saturating_secs_u32(&prefix.valid));
+                v.serialise(saturating_secs_u32(&prefix.preferred));
                 v.serialise(0_u32);
                 v.serialise(&prefix.prefix);
             }
@@ -417,7 +430,7 @@ fn serialise_router_advertisement(a: &RtrAdvertisement) -> Vec<u8> {
                 v.serialise(RDNSS.0);
                 v.serialise(u8::try_from(1 + servers.len() * 2).unwrap());
                 v.serialise(0_u16); // Reserved / Padding.
-                v.serialise(lifetime.as_secs() as u32);
+                v.serialise(saturating_secs_u32(lifetime));
                 for server in servers {
                     v.serialise(server);
                 }
@@ -438,7 +451,7 @@ fn serialise_router_advertisement(a: &RtrAdvertisement) -> Vec<u8> {
                 v.serialise(DNSSL.0);
                 v.serialise(1 + (dnssl.v.len() / 8) as u8);
                 v.serialise(0_u16); // Reserved / Padding.
-                v.serialise(lifetime.as_secs() as u32);
+                v.serialise(saturating_secs_u32(lifetime));
                 v.serialise(&dnssl.v);
             }
             NDOptionValue::Pref64((lifetime, prefixlen, prefix)) => {
